@@ -589,7 +589,5 @@ def run(tier):
 
 
 def replay(path):
-    with open(path) as f:
-        v = json.load(f)
-    print(json.dumps(v, indent=1)[:3000])
-    return 1
+    import sys
+    return common.replay_by_rerun(sys.modules[__name__], PROP, path)
